@@ -6,7 +6,7 @@ from pv.entail import entails
 from pv.expr import Ctx, guard_facts, key_contains, key_subst
 from pv.facts import AnalysisBroken, strip_targs
 from pv.formula import Formula
-from pv.loops import enclosing_loops, loop_shape
+from pv.loops import enclosing_loops, loop_shape, no_early_exit
 from checks import lehmann as lh
 from checks.lehmann import fld, THIS
 
@@ -146,7 +146,7 @@ def body(chk, db, cfgname):
 
     def from_zero(v):
         s_ = shapes.get(v[:2])
-        return s_ is not None and s_["kind"] == "index" and s_["start"] == ("lit", 0) and not s_["exits"]
+        return s_ is not None and s_["kind"] == "index" and s_["start"] == ("lit", 0) and no_early_exit(s_)
     okB = entails(fa2, ("<", Bw, ext)) and from_zero(Bw)
     # slice resized to (S,S) with a,b < S
     sl = [x for x in rs if x[0] == "op" and x[1] == "[]" and x[2] == VAL]
